@@ -459,6 +459,48 @@ class Body:
             st.extend(self.succs(b))
         return seen, decided
 
+    # ---- cross-closure tracing -------------------------------------------
+    def creator(self):
+        """(creator body, ops exprs of the closure aggregate) for a closure body, else None."""
+        if self.kind != "closure":
+            return None
+        if getattr(self, "_creator", None) is None:
+            self._creator = (None, None)
+            pk = self.key.rsplit("::{closure#", 1)[0]
+            pb = self.facts.body(pk)
+            if pb is not None:
+                for bi, si, s in pb.stmts():
+                    if s["k"] == "Assign" and s["rv"]["k"] == "Aggregate" and s["rv"].get("closure") == self.key:
+                        self._creator = (pb, s["rv"]["ops"])
+                        break
+        return self._creator if self._creator[0] is not None else None
+
+    def xtrace(self, x, depth=0):
+        """Like trace, but closure captures are replaced by the creator's (recursively
+        x-traced) operand, and the closure's own parameters become ('carg', key, n)."""
+        return self._xsub(self.trace(x), depth)
+
+    def _xsub(self, e, depth):
+        if not isinstance(e, tuple) or depth > 12:
+            return e
+        if self.kind == "closure":
+            if e[0] == "field" and isinstance(e[1], tuple) and strip_refs(e[1]) == ("arg", 1):
+                cr = self.creator()
+                if cr is not None and e[2] < len(cr[1]):
+                    return cr[0].xtrace(cr[1][e[2]], depth + 1)
+                return ("upvar", self.key, e[2])
+            if e[0] == "arg" and e[1] >= 2:
+                return ("carg", self.key, e[1])
+        out = []
+        for x in e:
+            if isinstance(x, tuple):
+                out.append(self._xsub(x, depth))
+            elif isinstance(x, list):
+                out.append([self._xsub(y, depth) if isinstance(y, tuple) else y for y in x])
+            else:
+                out.append(x)
+        return tuple(out)
+
     def where(self, bi=None, si=None):
         if bi is None:
             sp = self.span
